@@ -109,6 +109,84 @@ def universes_c06():
     return us
 
 
+def _mut(fn):
+    def m(ev, uni):
+        ev = dict(ev)
+        fn(ev, uni)
+        return ev
+    return m
+
+
+def _resign(ev, author):
+    ev["id"] = C.compute_id(ev["pubkey"], ev["created_at"], ev["kind"], ev["tags"], ev["content"])
+    ev["sig"] = C.sign_hex(author, ev["id"])
+
+
+def _wrong_id(ev, uni):
+    # correctly signed over the true hash, but the id field is another well-formed hex string
+    ev["id"] = "%064x" % (int(ev["id"], 16) ^ 0xFFFF)
+
+
+def _float_time(ev, uni):
+    ev["created_at"] = float(ev["created_at"])
+    _resign(ev, "A")
+
+
+def _string_time(ev, uni):
+    ev["created_at"] = str(ev["created_at"])
+    _resign(ev, "A")
+
+
+def _string_kind(ev, uni):
+    ev["kind"] = str(ev["kind"])      # signed over the integer form, transmitted as a string
+
+
+def _bool_kind(ev, uni):
+    ev["kind"] = True
+    _resign(ev, "A")
+
+
+def _bad_delegation(ev, uni):
+    ev["tags"] = [["delegation", C.pubkey("B"), "kind=1", "00" * 64]]
+    _resign(ev, "A")
+
+
+def _transplanted_delegation(ev, uni):
+    ev["tags"] = [C.delegation_tag("B", "C")]     # B delegated to C, not to A
+    _resign(ev, "A")
+
+
+def _short_delegation(ev, uni):
+    ev["tags"] = [["delegation", C.pubkey("B"), "kind=1"]]
+    _resign(ev, "A")
+
+
+def universes_c03():
+    us = {}
+    forged = [
+        E("ok", "A", 1, 10),
+        E("okd", "A", 1, 11, [["delegation", "B"]]),
+        E("f_content", "A", 1, 12, mutate=_mut(lambda ev, u: ev.__setitem__("content", ev["content"] + "!"))),
+        E("f_time", "A", 1, 13, mutate=_mut(lambda ev, u: ev.__setitem__("created_at", ev["created_at"] + 1))),
+        E("f_kind", "A", 1, 14, mutate=_mut(lambda ev, u: ev.__setitem__("kind", 2))),
+        E("f_tags", "A", 1, 15, mutate=_mut(lambda ev, u: ev.__setitem__("tags", [["t", "x"]]))),
+        E("f_pubkey", "A", 1, 16, mutate=_mut(lambda ev, u: ev.__setitem__("pubkey", C.pubkey("B")))),
+        E("f_sig", "A", 1, 17, mutate=_forge_sig),
+        E("f_sigother", "A", 1, 18, mutate=_mut(lambda ev, u: ev.__setitem__("sig", C.sign_hex("A", "11" * 32)))),
+        E("f_id", "A", 1, 19, mutate=_mut(_wrong_id)),
+        E("f_idupper", "A", 1, 20, mutate=_mut(lambda ev, u: ev.__setitem__("id", ev["id"].upper()))),
+        E("f_idcontent", "A", 1, 21, mutate=_mut(lambda ev, u: (ev.__setitem__("content", "x"), _wrong_id(ev, u)))),
+        E("f_floattime", "A", 1, 22, mutate=_mut(_float_time)),
+        E("f_strtime", "A", 1, 23, mutate=_mut(_string_time)),
+        E("f_boolkind", "A", 1, 25, mutate=_mut(_bool_kind)),
+        E("f_deleg", "A", 1, 26, mutate=_mut(_bad_delegation)),
+        E("f_delegother", "A", 1, 27, mutate=_mut(_transplanted_delegation)),
+        E("f_delegshort", "A", 1, 28, mutate=_mut(_short_delegation)),
+    ]
+    us["forged"] = forged
+    return us
+
+
 def _forge_content(ev, uni):
     ev = dict(ev)
     ev["content"] = ev["content"] + "!"
@@ -124,8 +202,8 @@ def _forge_sig(ev, uni):
 SYMTABS = {"dunicode": {"uml": "\u00e4", "umlx": "\u00e4x"},
            "gcdigits": {"v999": "999", "vbig": "17000000150", "vz14": "01700000014", "vi14": 1700000014, "vneg": "0abc"}}
 
-UNIVERSES = {"C06": universes_c06, "C08": universes_c08, "C09": universes_c09, "C17": universes_c17}
-GC_TIMES = {"C17": (15, 16), "C06": (), "C08": (), "C09": ()}
+UNIVERSES = {"C03": universes_c03, "C06": universes_c06, "C08": universes_c08, "C09": universes_c09, "C17": universes_c17}
+GC_TIMES = {"C03": (), "C17": (15, 16), "C06": (), "C08": (), "C09": ()}
 
 
 def final_probes(uni, prop):
@@ -160,6 +238,8 @@ def nontrivial(prop, uni, tr):
         return False
     if prop == "C06":
         return sum(1 for ln in tr if ln["a"] == "Submit") >= 2
+    if prop == "C03":
+        return any(ln["a"] == "Submit" and not ab[ln["id"]]["auth"] for ln in tr)
     return True
 
 
@@ -195,6 +275,8 @@ def run(prop, tier, seed, backends=BACKENDS, only_universe=None):
     rnd = random.Random(seed)
     design = tlc.DesignCheck([("MC_Store", "MC_Store_%s.cfg" % b, "Store/" + b) for b in backends], workers=3, timeout=1800)
     depth = {"quick": 3, "thorough": 4}[tier]
+    if prop == "C03":
+        depth = {"quick": 1, "thorough": 2}[tier]     # every variant on its own (and pairs): the quantifier is over inputs
     cap = {"quick": 1500 if prop == "C06" else 500, "thorough": 20000}[tier]
     own = prop + "_"
     # phase 1: TLC generates behaviours of Store.tla per (universe, backend, writer mode)
@@ -277,6 +359,7 @@ def run(prop, tier, seed, backends=BACKENDS, only_universe=None):
 
 
 _RULE = {
+    "C03": "an event that is not authentic was submitted",
     "C09": "some step removed a stored event",
     "C08": "an accepted kind-5 event was applied",
     "C17": "a collection ran on a non-empty store",
